@@ -174,6 +174,34 @@ pub fn run(ctx: &Ctx) -> Report {
         });
         rep.merge(r);
     }
+    // ---- (e) responses in which one message spans several packets (a row of 16 MiB or more)
+    if !ctx.miri {
+        let sizes: Vec<(usize, u8)> = if ctx.thorough { vec![(MAXP - 1, 0), (MAXP, 3), (MAXP + 1, 250), (2 * MAXP, 252), (2 * MAXP + 7, 254), (MAXP + 100, 255)] } else { vec![(MAXP, 250), (MAXP + 100, 3)] };
+        let r = par_cases(ctx, "C05", "bigrow", sizes.len() as u64, |_rng, i, rep| {
+            let (cell, id) = sizes[i as usize];
+            let cols = vec![simple_col("big", ColumnType::MYSQL_TYPE_LONG_BLOB)];
+            let prog = QProg {
+                colsets: vec![cols.clone()],
+                ops: vec![QOp::Start(0), QOp::Row(vec![Cell::val(V::Bytes(b"before".to_vec()))], RowForm::Owned), QOp::Col(Cell::val(V::Stream(ctx.seed, i, cell))), QOp::EndRow, QOp::Row(vec![Cell::val(V::Bytes(b"after".to_vec()))], RowForm::Owned), QOp::Finish],
+                on_err: OnErr::Drop,
+            };
+            let mut case = Case::new(vec![Cmd::query(b"q").seq(id), Cmd::ping().seq(id)], vec![Script::Q(prog)]);
+            case.log_reads = false;
+            let obs = run_case(&case);
+            rep.evaluations += 1;
+            rep.counters.inc("responses_with_multi_packet_message");
+            rep.counters.class(format!("row of {} bytes inside a multi-row response, request id {}", len_class(cell), id));
+            let d = || J::obj().set("request_id", id).set("big_cell_bytes", cell).set("outcome", obs.outcome.describe());
+            if i == 0 {
+                rep.sample(d());
+            }
+            check(&obs, rep, &d);
+        });
+        rep.merge(r);
+        if ctx.only.is_none() {
+            rep.require("responses_with_multi_packet_message", 1);
+        }
+    }
     if !ctx.miri && ctx.only.is_none() {
         rep.require("outbound_packets_checked", 1000);
         rep.require("responses_wrapping_around", 2);
